@@ -306,6 +306,39 @@ def run(F, R, tier, M=None):
            60)
     _check_loops(F, R)
 
+    # ---- J member initialisation -------------------------------------------------------------------------------
+    R.rule("J", "every data member of arithmetic, enumeration or fixed-size Eigen type in a repository class has a default member "
+                "initialiser or is initialised by every constructor (Eigen does not zero fixed-size objects): a freshly constructed "
+                "model, problem list or parameter struct never exposes indeterminate values", 150)
+    ctor_inits = {}
+    for k, f in F.functions.items():
+        m_ = f.get("method") or {}
+        if m_.get("ctor"):
+            cls = m_.get("clsT") or m_.get("cls")
+            ctor_inits.setdefault(cls, []).append({(i.get("member") or "").split("::")[-1] for i in f.get("inits", ()) if i.get("written", True)})
+    enum_names = {e["name"] for e in F.enums.values()}
+    seen_rec = set()
+    for rn, r in sorted(F.records.items()):
+        if not rn.startswith("gm2calc::") or not (r["file"].startswith("include/") or r["file"].startswith("src/")):
+            continue
+        if r["file"].endswith("slhaea.h") or (r["name"], r["file"], r["line"]) in seen_rec:
+            continue
+        seen_rec.add((r["name"], r["file"], r["line"]))
+        for fl in r.get("fields", ()):
+            t = _unq(fl.get("t"))
+            plain = re.match(r"^(double|float|long double|int|bool|unsigned|unsigned int|long|unsigned long|short|char|std::size_t|size_t)$", t)
+            if not (plain or t.startswith("Eigen::Matrix<") or t.startswith("Eigen::Array<") or t in enum_names or
+                    t.startswith("std::complex<")):
+                continue
+            ok = "init" in fl
+            if not ok:
+                cs = ctor_inits.get(r.get("t") or rn) or ctor_inits.get(rn) or []
+                ok = bool(cs) and all(fl["name"] in c for c in cs)
+            R.check("J", ok, "%s::%s : %s" % (rn.split("::")[-1], fl["name"], t[:40]), "%s:%s" % (r["file"], r["line"]),
+                    "data member %s of %s has no default member initialiser and is not set by every constructor: its value is "
+                    "indeterminate on a fresh object (undefined behaviour when read, non-deterministic output)" % (fl["name"], rn),
+                    key="J|%s|%s" % (rn, fl["name"]))
+
     # ---- I allocation -------------------------------------------------------------------------------------
     R.rule("I", "raw new only in the C constructors, delete only in the C free functions", 5)
     for k, f in sorted(F.functions.items()):
